@@ -1,9 +1,122 @@
 import AioModel.Wire
-/-! Driver commands of property C12 (stub until the model exists). -/
+import AioModel.C12
+import AioModel.C12Spec
+/-!
+Driver commands of property C12.
+
+`run <maxMsgSize> <compress> <decodeText> <queueLimit> <zresults> <op>…`
+  * `<zresults>`: `-` or `;`-separated results of the real `decompress_sync` calls, in call
+    order (`ok:<hex>` | `many` | `err`) — zlib is an oracle column, not modelled;
+  * `<op>`: `F:<hex>` = `feed_data`, `R` = `_read_from_buffer`.
+  Reply: one token per op, then ` M ` + the messages put on the queue, then ` Z ` + the
+  `(input, max_length)` of every inflate call the model made.
+`spec <maxMsgSize> <compress> <decodeText> <zresults> <hex>` — the reference decoder.
+`utf8 <hex>` — `utf8Valid`.
+-/
 namespace Aio.Driver.C12
-open Aio Aio.Wire
+open Aio Aio.Wire Aio.C12
+
+structure OSt where
+  todo : List InflRes
+  calls : List (Bytes × Nat)
+
+/-- the inflate "oracle": answers with the recorded results of the real zlib, logs the calls -/
+def oracle (rs : List InflRes) : Inflater where
+  St := OSt
+  init := { todo := rs, calls := [] }
+  inflate st d m :=
+    match st.todo with
+    | r :: t => ({ todo := t, calls := (d, m) :: st.calls }, r)
+    | [] => ({ todo := [], calls := (d, m) :: st.calls }, .error)
+
+def parseZ (s : String) : Option (List InflRes) :=
+  if s == "-" then some [] else
+  (s.splitOn ";").mapM (fun t =>
+    if t == "many" then some .tooMany
+    else if t == "err" then some .error
+    else match t.splitOn ":" with
+      | ["ok", h] => (parseHex h).map .ok
+      | _ => none)
+
+def showErr : Option Err → String
+  | none => "none"
+  | some (.ws c) => s!"ws{c}"
+  | some .zlib => "zlib"
+
+def showPhase : Phase → String
+  | .header => "H" | .len => "L" | .mask => "K" | .payload => "P"
+
+def showMsg (m : Msg) : String :=
+  (match m with
+   | .text d => "T:" ++ showHex d
+   | .binary d => "B:" ++ showHex d
+   | .ping d => "P:" ++ showHex d
+   | .pong d => "O:" ++ showHex d
+   | .close c r => s!"C:{c}:" ++ showHex r) ++ s!"/{m.size}"
+
+def showMsgs (ms : List Msg) : String :=
+  if ms.isEmpty then "-" else ",".intercalate (ms.map showMsg)
+
+def showCalls (cs : List (Bytes × Nat)) : String :=
+  if cs.isEmpty then "-" else ";".intercalate (cs.reverse.map (fun (d, m) => showHex d ++ s!"@{m}"))
+
+inductive Op where
+  | feed (d : Bytes)
+  | read
+
+def parseOp (s : String) : Option Op :=
+  if s == "R" then some .read else
+  match s.splitOn ":" with
+  | ["F", h] => (parseHex h).map .feed
+  | _ => none
+
+def showState {Z : Inflater} (r : Reader Z) : String :=
+  s!"f:{showPhase r.p.k.phase},{r.tail.length},{r.p.k.frags.length},{r.p.fragCount},{r.p.k.toRead},{r.p.k.partialMsg.length},{r.p.k.msgs.length},{r.p.k.qsize},{showBool r.p.paused},{showErr r.exc}"
+
+def runOps {Z : Inflater} (c : Cfg) : Reader Z → List Op → List String → Reader Z × List String
+  | r, [], acc => (r, acc.reverse)
+  | r, .feed d :: ops, acc =>
+    let r' := feed c r d
+    runOps c r' ops (showState r' :: acc)
+  | r, .read :: ops, acc =>
+    let (r', res) := read c r
+    let s := match res with
+      | .msg m => "r:" ++ showMsg m ++ s!",{r'.p.k.qsize},{showBool r'.p.paused}"
+      | .raised e => "r:raise:" ++ showErr (some e)
+      | .empty => "r:empty"
+    runOps c r' ops (s :: acc)
+
+def showViol : Spec.Viol → String
+  | .rsv => "rsv" | .opcode => "opcode" | .ctlFragmented => "ctl-fragmented" | .ctlTooLong => "ctl-too-long"
+  | .tooBig => "too-big" | .contNoStart => "cont-no-start" | .dataInMessage => "data-in-message"
+  | .closePayload => "close-payload" | .closeCode => "close-code" | .utf8Text => "utf8-text"
+  | .utf8Close => "utf8-close" | .inflate => "inflate"
+
+def showSpecErr : Option Spec.Viol → String
+  | none => "none"
+  | some v => showErr (some v.toErr) ++ ":" ++ showViol v
 
 def handle : List String → String
+  | "run" :: mx :: cp :: dt :: ql :: zs :: ops =>
+    match mx.toNat?, ql.toNat?, parseZ zs, ops.mapM parseOp with
+    | some mx, some ql, some zs, some ops =>
+      let c : Cfg := { maxMsgSize := mx, compress := parseBool cp, decodeText := parseBool dt, queueLimit := ql }
+      let Z := oracle zs
+      let (r, outs) := runOps (Z := Z) c {} ops []
+      " ".intercalate outs ++ " M " ++ showMsgs r.p.k.msgs ++ " Z " ++ showCalls r.p.k.z.calls
+    | _, _, _, _ => "bad-op"
+  | ["spec", mx, cp, dt, zs, h] =>
+    match mx.toNat?, parseZ zs, parseHex h with
+    | some mx, some zs, some bs =>
+      let c : Cfg := { maxMsgSize := mx, compress := parseBool cp, decodeText := parseBool dt, queueLimit := 0 }
+      let Z := oracle zs
+      let res := Spec.decode (Z := Z) c bs
+      showMsgs res.msgs ++ " E " ++ showSpecErr res.err ++ " L " ++ showBool res.atLimit
+    | _, _, _ => "bad-op"
+  | ["utf8", h] =>
+    match parseHex h with
+    | some bs => showBool (utf8Valid bs)
+    | none => "bad-op"
   | _ => "bad-op"
 
 end Aio.Driver.C12
